@@ -234,7 +234,8 @@ ABS_TPL = ["{d:02d}.{m:02d}.{y}", "{d}.{m}.{y}", "{d:02d}/{m:02d}/{y}", "{d:02d}
            "{d:02d}.{m:02d}.{yy:02d}", "{d}.{m}.{yy:02d}"]
 ABS_CLOCK = ["", "", " {h}:{mi:02d}", " {h:02d}:{mi:02d}", " {h}:{mi:02d}:{ss:02d}",
              " um {h}:{mi:02d} uhr",
-             " at {h}:{mi:02d}", " {h}:{mi:02d} uhr", " {h12}:{mi:02d} {ap}", " at {h12}:{mi:02d}{ap}"]
+             " at {h}:{mi:02d}", " {h}:{mi:02d} uhr", " {h12}:{mi:02d} {ap}", " at {h12}:{mi:02d}{ap}",
+             " {h12}.{mi:02d} {ap}", " {h}.{mi:02d} uhr", " {h:02d}.{mi:02d} uhr"]
 MONTHNAME_TPLS = {t for t in ABS_TPL if "{M}" in t}
 
 
@@ -260,6 +261,15 @@ def c05_forms(rng, n):
         ck = rng.choice(ABS_CLOCK)
         h = rng.randint(0, 23)
         mi = rng.choice([0, 5, 7, 30, 45, 59, rng.randint(0, 59)])
+        if ck and rng.random() < 0.2:
+            # a clock that repeats digits of the date itself (hour = month or day, minute =
+            # century, month or two-digit year)
+            h, mi = rng.choice([(m, y // 100), (d % 24, m), (m, y % 100 if y % 100 < 60 else m),
+                                (d % 24, y // 100), (m + 12 if m < 12 else m, y // 100)])
+        if ".{mi" in ck and mi <= 12:
+            # "7.05 am" is itself a well-formed dd.mm date (and "am" the German "on"): a dotted
+            # clock stands next to a date only where its minute cannot be a month (appendix A)
+            ck = ck.replace(".{mi", ":{mi")
         h12 = h % 12 or 12
         ap = "am" if h < 12 else "pm"
         ds = tpl.format(d=d, m=m, y=y, yy=y % 100, M=M, o=_ord_en(d))
@@ -338,6 +348,9 @@ def c06_forms(rng, n, year_hint=2020):
         elif k == "h":
             f = ("%dh%02d" % (h, mi), "{h}h{mm}") if mi else ("%dh" % h, "{h}h")
         elif k == "mil":
+            if rng.random() < 0.3:
+                # 20xx: the digits can spell a year close to the reference year
+                h, mi = 20, rng.choice([15, 20, 25, 30, 35, 40, 45])
             if mi % 5:
                 continue
             f = ("%02d%02d" % (h, mi), "{hh}{mm}")
